@@ -65,6 +65,47 @@ def big_broken(rng, i):
     return doc[:k + 10] + 'AT&T ' + doc[k + 10:]
 
 
+def same_name_other_directory(s, i, tmpdir):
+    """A relative file name means the file in the CURRENT directory: two directories hold files of the same
+    names and different content; each is read (twice) after changing into its directory."""
+    rng = s.rng('chdir', i)
+    pool = gen.text_pool('plain')
+    MosFile = s.mt.MosFile
+    docs = {}
+    for d_ in ('monday', 'tuesday'):
+        os.makedirs(os.path.join(tmpdir, d_), exist_ok=True)
+        ro_txt = gen.rand_ro(rng, n_stories=rng.randint(1, 3), pool=pool, message_id=1)
+        msg = gen.rand_message(rng, Abs(ro_txt), rng.choice(B.ALL_KINDS), 7, gen.Ids('%s%d.' % (d_[0], i)), pool=pool)
+        docs[d_] = {'ro.mos.xml': ro_txt, 'msg.mos.xml': msg}
+        for nm, txt in docs[d_].items():
+            with open(os.path.join(tmpdir, d_, nm), 'w', encoding='utf-8') as f:
+                f.write(txt)
+    cwd = os.getcwd()
+    try:
+        for d_ in ('monday', 'tuesday', 'monday'):
+            os.chdir(os.path.join(tmpdir, d_))
+            for nm, txt in docs[d_].items():
+                for path in (nm, os.path.join('.', nm), pathlib.Path(nm)):
+                    try:
+                        got = str(MosFile.from_file(path))
+                    except Exception as e:
+                        got = 'EXC:' + type(e).__name__
+                    try:
+                        want = str(MosFile.from_string(txt))
+                    except Exception as e:
+                        want = 'EXC:' + type(e).__name__
+                    s.evaluations += 1
+                    s.note_sig(('relative-name', d_, nm, got == want))
+                    if got != want:
+                        s.custom_violation('sources-disagree', {'what': 'a relative file name read after changing directory',
+                                                                'directory': d_, 'name': str(path)},
+                                           {'type': 'chdir', 'i': i}, status='relative-name')
+        s.hist['relative_names_after_chdir'] += 1
+    finally:
+        os.chdir(cwd)
+    EV.drain()
+
+
 def sources(s, i, tmpdir):
     rng = s.rng('doc', i)
     pool = gen.text_pool('hostile')
@@ -335,6 +376,9 @@ def run(s):
                 readers(s, i, tmpdir)
         if s.mine(0):
             empty_lists(s, tmpdir)
+        for i in range(24 if q else 1500):
+            if s.mine(i):
+                same_name_other_directory(s, i, tmpdir)
         for i in range(300 if q else 15000):
             if s.mine(i):
                 listings(s, i)
@@ -354,6 +398,8 @@ def replay(s, data):
             empty_lists(s, tmpdir)
         elif w.get('type') == 'listing':
             judge_listing(s, w['keys'], [w['prefix']], w['suffix'], w['page_size'])
+        elif w.get('type') == 'chdir':
+            same_name_other_directory(s, w['i'], tmpdir)
         else:
             s.notes.append('unknown witness type')
     finally:
